@@ -3,7 +3,6 @@ import StirVerif.C05.Model
 
 Data lines (answer `ok`):
   `cfg <id> nvox=<V> zero=<0|1> …`            new configuration
-  `vgs t0 t1 …`                               for every viewgram id its sibling at TOF position 0
   `img f…` / `inp f…`                          current image / Hessian input (C99 hex floats)
   `bin  <vg> <endplane> <y> <a|-> <k> <N|E><f>…(k) <m> <vox> <p> …(m)`   one bin of the measured data
   `sbin …`                                     same, geometry used for the sensitivity when it differs
@@ -14,7 +13,7 @@ Operations (viewgram ids of the subset follow):
   a result that depends on a comparison within 2^-10 (relative) of one of the thresholds of
   `divide_and_truncate` / `accumulate_loglikelihood` is answered `near` (not compared);
   `range <n> <s>` → `ok ok` / `err err`: is subset number `s` of `n` accepted by the gradient / value functions;
-  `pen <n> <c> q…(c) p…(c)` → per element `q − p/n`; `penh|penah <n> <c> q… pin… pout…` → `q − pout/n` (as written in the source);
+  `pen <n> <c> q…(c) p…(c)` → per element `q − p/n`; `penh|penah <n> <c> q…(c) pin…(c)` → `q − pin/n` (`pin` = prior's Hessian applied to the input);
   `hist <sameproj> <recompute> <nsub> <g> <g2> r…` → per request `1`/`0` (served correctly?) for the flag machine, for the given
   values of the two indeterminate members and, after ` / `, for the opposite values if that makes a difference.
 The bound is the forward error bound `4·n·2⁻²⁴·Σ|terms|` (n = longest chain of float operations:
@@ -80,7 +79,6 @@ structure Ctx where
   nvox : Nat := 0
   img : Array Rat := #[]
   inp : Array Rat := #[]
-  tof0 : Array Nat := #[]
   vgs : Array (List (Bin Rat)) := #[]    -- bins of a viewgram in reverse order of arrival
   svgs : Array (List (Bin Rat)) := #[]
   hasS : Bool := false
@@ -180,16 +178,14 @@ def doGrad (c : Ctx) (addSens : Bool) (ids : List Nat) : String :=
   fmtVec c.nvox (maxRowLen S) 0 1 cs mags
 
 def doSens (c : Ctx) (ids : List Nat) (divide : Rat) : String :=
-  let trivial := (getVgs (if c.hasS then c.svgs else c.vgs) ids).all fun vg => vg.all fun b => b.fac.isEmpty
-  -- the sensitivity geometry, when it is a separate (non-TOF) one, has a single timing position
-  let ids := if c.hasS then ids else sensReads trivial c.zero (fun i => c.tof0.getD i i) ids
+  -- the sensitivity geometry is a separate (non-TOF) one when the data are TOF and `use_tofsens` is off
   let S := getVgs (if c.hasS then c.svgs else c.vgs) ids
   let cs := sensContribs c.zero S
   let mags := magContribs c.pmax (fun _ => 0) (fun _ b => sensW c.zero b) S
   fmtVec c.nvox (maxRowLen S + 4) 0 1 cs mags divide
 
 def doHess (c : Ctx) (c0 : Rat) (ids : List Nat) : String :=
-  let S := getVgs c.vgs (hessReads (fun i => c.tof0.getD i i) ids)
+  let S := getVgs c.vgs ids
   let img := fun i => c.img.getD i 0
   let x := fun i => c.inp.getD i 0
   let smallF := smallOf constsR (hessNum x)
@@ -199,7 +195,7 @@ def doHess (c : Ctx) (c0 : Rat) (ids : List Nat) : String :=
   fmtVec c.nvox (3 * maxRowLen S) c0 (-1) cs mags
 
 def doAHess (c : Ctx) (c0 : Rat) (ids : List Nat) : String :=
-  let S := getVgs c.vgs (hessReads (fun i => c.tof0.getD i i) ids)
+  let S := getVgs c.vgs ids
   let x := fun i => c.inp.getD i 0
   let smallF := smallOf constsR (fun b : Bin Rat => fwd x b.row)
   if anyBin S (fun vg b => nearDiv (smallF vg) (fwd x b.row) (applyNorm constsR b.fac (applyNorm constsR b.fac b.y))) then "near" else
@@ -234,10 +230,9 @@ def doPen (n : Nat) (c : Nat) (vals : List String) (hess : Bool) : String :=
   let toks := (List.range c).map fun i =>
     let q := xs.getD i 0
     let pin := xs.getD (c + i) 0
-    let pout := xs.getD (2 * c + i) 0
     let nn : Rat := (n : Int)
-    let x := if hess then penalisedHess q pin pout nn else penalised q pin nn
-    let b := 16 * u24 * (absR q + absR (if hess then pout else pin) / nn)
+    let x := if hess then penalisedHess q pin nn else penalised q pin nn
+    let b := 16 * u24 * (absR q + absR pin / nn)
     s!"{roundScaled x}:{ceilScaled b}"
   " ".intercalate toks
 
@@ -256,7 +251,6 @@ def stepLine (c : Ctx) (line : String) : Ctx × String :=
   match toks with
   | "cfg" :: rest =>
     ({ zero := keyVal rest "zero" == some "1", nvox := N ((keyVal rest "nvox").getD "0") }, "ok")
-  | "vgs" :: rest => ({ c with tof0 := (rest.map N).toArray }, "ok")
   | "img" :: rest => ({ c with img := (rest.map hexD).toArray }, "ok")
   | "inp" :: rest => ({ c with inp := (rest.map hexD).toArray }, "ok")
   | "bin" :: rest =>
